@@ -12,7 +12,13 @@ def spec(th, seed):
     # aligned_highp/mediump/lowp matrices (SIMD specialisations: mul4x4<aligned>, vec4 operators, transpose/matrixCompMult/outerProduct)
     for p in (1, 2, 3, 4):
         units.append(U('C02_matrix.part%d.aligned-avx2' % p, SRC, 'plain', defs=['-DPART=%d' % p, '-mavx2', '-mfma'] + SIMD, libs=LIBS, scale=0.5))
+    # AVX without AVX2 takes its own double-precision paths (convert_splat<...>::detailAVX, 2x128-bit integer halves)
+    units.append(U('C02_matrix.part1.aligned-avx', SRC, 'plain', defs=['-DPART=1', '-mavx', '-mfma'] + SIMD, libs=LIBS, scale=0.3))
+    # constructors written for compilers without initializer lists (the #if !GLM_HAS_INITIALIZER_LISTS bodies)
+    units.append(U('C02_matrix.part2.cxx98', SRC, 'plain', defs=['-DPART=2', '-DGLM_FORCE_CXX98', '-DNQ=1'], libs=LIBS, scale=0.2))
     if th:
+        for p in (2, 3, 4):
+            units.append(U('C02_matrix.part%d.aligned-avx' % p, SRC, 'plain', defs=['-DPART=%d' % p, '-mavx', '-mfma'] + SIMD, libs=LIBS, scale=0.2))
         for ts in (2, 3):   # sized integers: i8 u8 i16 u16 | i64 u64
             for p in (1, 2, 3, 4):
                 units.append(U('C02_matrix.part%d.types%d' % (p, ts), SRC, 'plain', defs=['-DPART=%d' % p, '-DTYPESET=%d' % ts], libs=LIBS, scale=0.3))
@@ -20,13 +26,17 @@ def spec(th, seed):
             units.append(U('C02_matrix.part%d.clang' % p, SRC, 'clang', defs=['-DPART=%d' % p], libs=LIBS, scale=0.2))
         for p in (1, 2, 4):
             units.append(U('C02_matrix.part%d.aligned-sse2' % p, SRC, 'plain', defs=['-DPART=%d' % p, '-msse2'] + SIMD, libs=LIBS, scale=0.2))
-        # constructors written for compilers without initializer lists (the #if !GLM_HAS_INITIALIZER_LISTS bodies)
-        units.append(U('C02_matrix.part2.cxx98', SRC, 'plain', defs=['-DPART=2', '-DGLM_FORCE_CXX98', '-DNQ=1'], libs=LIBS, scale=0.2))
         units.append(U('C02_matrix.part1.O0', SRC, 'plainO0', defs=['-DPART=1', '-DNQ=1'], libs=LIBS, scale=0.1))
+    # aliasing supplement (mon/alias.cpp): destination / out-parameter is one of the operands; oracle = the same call with a copy of that operand
+    units.append(U('C02_alias', 'mon/alias.cpp', 'plain', defs=['-DALIAS_PROP=2']))
+    units.append(U('C02_alias.simd-aligned', 'mon/alias.cpp', 'plain', defs=['-DALIAS_PROP=2'] + ['-DGLM_FORCE_INTRINSICS', '-DGLM_FORCE_DEFAULT_ALIGNED_GENTYPES', '-mavx2', '-mfma']))
+    if th:
+        units.append(U('C02_alias.clang', 'mon/alias.cpp', 'clang', defs=['-DALIAS_PROP=2']))
+        units.append(U('C02_alias.simd-sse2.O0', 'mon/alias.cpp', 'plainO0', defs=['-DALIAS_PROP=2', '-DGLM_FORCE_INTRINSICS', '-DGLM_FORCE_DEFAULT_ALIGNED_GENTYPES', '-msse2'], scale=0.2))
     return {
         'units': units,
         'parallel_units': 4,
-        'rule': 'every operation is evaluated for all nine shapes mat2x2..mat4x4 (27 operand-shape pairs for mat*mat, 9 for mat*vec and vec*mat, 81 source/destination pairs for the converting constructors) x qualifiers highp/mediump/lowp (aligned_* in the SIMD units) x element types float, double, int, uint (thorough: also i8,u8,i16,u16,i64,u64); per (operation, shape pair, qualifier) the inputs cycle through four streams: tag matrices of distinct signed primes in shuffled positions, transposition probes (one operand is a single +-1 at a random position, the other a tag matrix), random small integers (ranges 1,2,3,10,L), and random general values (float/double: uniform and log-uniform magnitudes, wide exponent ranges without overflow; u32/u64: full-range bit patterns judged modulo 2^n; copies: IEEE special-value lattice, random bit patterns incl. NaN/inf/-0). Parts: 1 products (mat*mat, mat*=mat, mat*vec, vec*mat), 2 shape/element-type conversions, constructors, operator[] access, 3 element-wise and compound operators, unary -/+, ++/--, ==/!=, 4 transpose, outerProduct, matrixCompMult, gtc row/column, gtx diagonalCxR, rowMajor/colMajor, matrixCross3/4',
+        'rule': 'aliasing supplement (mon/alias.cpp): every compound/in-place/out-parameter form is run twice from the same state, once with the aliased operand replaced by a copy, and the final states must be bitwise identical; every operation is evaluated for all nine shapes mat2x2..mat4x4 (27 operand-shape pairs for mat*mat, 9 for mat*vec and vec*mat, 81 source/destination pairs for the converting constructors) x qualifiers highp/mediump/lowp (aligned_* in the SIMD units) x element types float, double, int, uint (thorough: also i8,u8,i16,u16,i64,u64); per (operation, shape pair, qualifier) the inputs cycle through four streams: tag matrices of distinct signed primes in shuffled positions, transposition probes (one operand is a single +-1 at a random position, the other a tag matrix), random small integers (ranges 1,2,3,10,L), and random general values (float/double: uniform and log-uniform magnitudes, wide exponent ranges without overflow; u32/u64: full-range bit patterns judged modulo 2^n; copies: IEEE special-value lattice, random bit patterns incl. NaN/inf/-0). Parts: 1 products (mat*mat, mat*=mat, mat*vec, vec*mat), 2 shape/element-type conversions, constructors, operator[] access, 3 element-wise and compound operators, unary -/+, ++/--, ==/!=, 4 transpose, outerProduct, matrixCompMult, gtc row/column, gtx diagonalCxR, rowMajor/colMajor, matrixCross3/4',
         'assumptions': [
             'oracle = loops over plain arrays written from the textbook definitions ((A*B)[c][r] = sum_k A[k][r]*B[c][k], column-major), no glm code; integers: exact 128-bit arithmetic, judged only when every product and partial sum is representable in the element type (u32/u64 additionally modulo 2^n); float/double with integer entries |e|<=2^10 / 2^24: the exact value, compared by value (+0 == -0); other finite float/double: |got-exact| <= 2K*u*sum|a||b| + (K+1)*denorm_min with K products per element (exact reference in __float128; worst case of any evaluation order incl. FMA is K*u*sum|a||b|, so err/bound <= 0.5 for correct code); single element-wise +,-,* : the IEEE result of the builtin operator by value; division: within 4u|q| of the exact quotient; copies (conversions, transpose, constructors, access, row/column): bit-identical, any NaN equals any NaN',
             'domains: finite operands whose sums of four products cannot overflow; integer divisors non-zero and not MIN/-1; signed and 8/16-bit integer operands bounded so that nothing overflows or wraps; aligned_lowp float division (hardware reciprocal approximation by design) is only judged to 2^-10 relative',
